@@ -497,6 +497,25 @@ func (la *lockAnalysis) analyzeP(fn *ssa.Function, penv map[*ssa.Parameter]bool,
 					tests[b] = testInfo{call, t.Nil, t.NonNil}
 				}
 			}
+			// `x, err := f(); if x != nil {...}`: a non-nil first result of a (*T, error) function means success
+			if call.Call.Signature().Results().Len() == 2 && call.Referrers() != nil {
+				for _, r := range *call.Referrers() {
+					ex, isEx := r.(*ssa.Extract)
+					if !isEx || ex.Index != 0 {
+						continue
+					}
+					if _, isPtr := ex.Type().Underlying().(*types.Pointer); !isPtr {
+						continue
+					}
+					for _, t := range nilTestsOf(ex) {
+						if t.If.Block() == b {
+							if _, has := tests[b]; !has {
+								tests[b] = testInfo{call, t.NonNil, t.Nil} // success = non-nil value
+							}
+						}
+					}
+				}
+			}
 		}
 	}
 	outFor := func(b *ssa.BasicBlock, st *lstate, classCall *ssa.Call, class string) *lstate {
@@ -616,6 +635,12 @@ type lockCtx struct {
 // entry of every function that has no caller in the package (API entry points
 // on Tx/Bucket/Cursor carry the transaction's lock).
 func (la *lockAnalysis) context(ambient func(fn *ssa.Function) lset) *lockCtx {
+	return la.contextM(ambient, nil)
+}
+
+// contextM: as context, with locks that are DEFINITELY held at the entry of the
+// functions that have no caller in the package (ambientMust).
+func (la *lockAnalysis) contextM(ambient func(fn *ssa.Function) lset, ambientMust func(fn *ssa.Function) lset) *lockCtx {
 	fns := la.c.P.FnsIn(rootPkg)
 	type site struct {
 		caller *ssa.Function
@@ -637,6 +662,15 @@ func (la *lockAnalysis) context(ambient func(fn *ssa.Function) lset) *lockCtx {
 			if callee == nil {
 				if cl := closureOf(ci.Common().Value); cl != nil {
 					callee = cl
+				}
+			}
+			// a call on a transaction of the OTHER kind than the one this analysis is specialised to
+			// (View's read transaction in the write-transaction analysis) contributes no context
+			if callee != nil && callee.Signature.Recv() != nil && strings.HasSuffix(callee.Signature.Recv().Type().String(), "bbolt.Tx") && len(ci.Common().Args) > 0 {
+				if want, has := la.env[la.wrF]; has {
+					if w, known := txKind(ci.Common().Args[0], 0); known && w != want {
+						return
+					}
 				}
 			}
 			if callee != nil {
@@ -670,6 +704,9 @@ func (la *lockAnalysis) context(ambient func(fn *ssa.Function) lset) *lockCtx {
 	for _, f := range fns {
 		if len(sites[f]) == 0 {
 			ctx.must[f] = lset{}
+			if ambientMust != nil {
+				ctx.must[f] = ambientMust(f)
+			}
 			ctx.may[f] = ambient(f)
 			if dispatched[f] {
 				ctx.may[f] = lset{}
